@@ -55,7 +55,10 @@ Pool ==
      Q("{ f(z: [1, 2]) }", "", "T", "-"),                                 \* 26 list literal
      Q("{ f(z: [3]) }", "", "T", "-"),                                    \* 27
      Q("query($v: Boolean!) { a @skip(if: $v) }", "", "U", "vt"),         \* 28 variable directive
-     Q("query($v: Boolean!) { a @include(if: $v) }", "", "V", "vt")       \* 29
+     Q("query($v: Boolean!) { a @include(if: $v) }", "", "V", "vt"),      \* 29
+     Q("{ g(li: [1]) }", "", "W", "-"),                                   \* 30
+     Q("{ g(li: true) }", "", "X", "-"),                                  \* 31 invalid literal of the same shape
+     Q("{ g(li: [2, 3]) }", "", "W", "-")                                 \* 32
   >>
 
 Schemas == {"s1", "s2"}
